@@ -338,12 +338,80 @@ theorem attemptL_refines {es F : List Int} {last now : Int} (h : RelL es F last)
       refine ⟨hf.append, ?_⟩
       simp [hlen]
 
+/-! ### `par`: n failures at once -/
+
+theorem youngCount_eq (now : Int) (es : List Int) : youngCount now es = ageCount now es := by
+  unfold youngCount ageCount
+  congr 1
+  apply List.filter_congr
+  intro t _
+  simp only [ageCmp_gt, inAge_eq]
+  by_cases h : now - t ≤ (maxBruteforceAge : Int)
+  · simp [h]
+  · simp [h]; omega
+
+theorem RelL.append_replicate {es F : List Int} {now : Int} (h : RelL es F now) (n : Nat) :
+    RelL (es ++ List.replicate n now) (F ++ List.replicate n now) now := by
+  induction n with
+  | zero => simpa using h
+  | succ n ih =>
+    rw [List.replicate_succ', ← List.append_assoc, ← List.append_assoc]
+    exact ih.append
+
+/-- What `step (.par ..)` does to `st k a`. -/
+def parL (now : Int) (es : List Int) (n : Nat) : List Int × Out :=
+  if es ≠ [] ∧ blocked now es then (es, .rest 0 (youngCount now es) true [])
+  else
+    let es0 := filterEntries now es
+    let es' := es0 ++ List.replicate n now
+    (es', .rest n (youngCount now es') (blocked now es')
+            ((List.range n).map fun i => getDelay (es0.length + i)))
+
+theorem parL_refines {es F : List Int} {last now : Int} (h : RelL es F last) (hl : last ≤ now)
+    (n : Nat) :
+    RelL (parL now es n).1 (specPar now F n).1 now ∧ (parL now es n).2 = (specPar now F n).2 := by
+  have hb := h.blocked_eq hl
+  have hnil : es = [] → blocked now es = false := by
+    intro h0; subst h0; simp [blocked]
+  unfold parL specPar
+  by_cases hr : specRefused now F = true
+  · have hne : es ≠ [] := by
+      intro h0; have := hnil h0; rw [hb, hr] at this; cases this
+    simp [hr, hb, hne, h.advance hl, youngCount_eq, h.ageCount_eq hl]
+  · have hr' : specRefused now F = false := by simpa using hr
+    obtain ⟨hf, hlen⟩ := h.filter hl
+    have hrel := hf.append_replicate n
+    have hle : now ≤ now := Int.le_refl _
+    simp only [hr', hb, Bool.false_eq_true, and_false, if_false]
+    refine ⟨hrel, ?_⟩
+    rw [youngCount_eq, hrel.ageCount_eq hle, hrel.blocked_eq hle, hlen]
+
 end SigModel.Throttle
 
 namespace SigModel.Throttle
 open SigModel.Generated.Throttle
 
 /-! ### the whole table -/
+
+theorem step_par_at (st : State) (now : Int) (addr : Addr) (a : Action) (n : Nat) :
+    (step st (.par now addr a n)).1 (throttleKey addr) a = (parL now (st (throttleKey addr) a) n).1 ∧
+    (step st (.par now addr a n)).2 = (parL now (st (throttleKey addr) a) n).2 := by
+  unfold step par parL check
+  by_cases h0 : st (throttleKey addr) a = []
+  · simp [h0, State.set, filterEntries]
+  · by_cases hb : blocked now (st (throttleKey addr) a) = true
+    · simp [h0, hb]
+    · simp [h0, hb, State.set]
+
+theorem step_par_frame (st : State) (now : Int) (addr : Addr) (a : Action) (n : Nat)
+    (k' : Key) (a' : Action) (hne : ¬ (k' = throttleKey addr ∧ a' = a)) :
+    (step st (.par now addr a n)).1 k' a' = st k' a' := by
+  unfold step par check
+  by_cases h0 : st (throttleKey addr) a = []
+  · simp [h0, State.set, hne]
+  · by_cases hb : blocked now (st (throttleKey addr) a) = true
+    · simp [h0, hb]
+    · simp [h0, hb, State.set, hne]
 
 theorem step_attempt_at (st : State) (now : Int) (addr : Addr) (a : Action) (failed : Bool) :
     (step st (.attempt now addr a failed)).1 (throttleKey addr) a
@@ -395,6 +463,20 @@ theorem step_refines {st : State} {h : Hist} {last : Int} (hr : Rel st h last) (
     exact ((hr k a).filter hl).1
   | checkOnly _ _ _ => simp [Op.atomic] at hat
   | throttleOnly _ _ _ => simp [Op.atomic] at hat
+  | par now addr a n =>
+    simp only [Op.time] at hl ⊢
+    obtain ⟨h1, h2⟩ := step_par_at st now addr a n
+    obtain ⟨r1, r2⟩ := parL_refines (hr (throttleKey addr) a) hl n
+    constructor
+    · intro k' a'
+      by_cases hk : k' = throttleKey addr ∧ a' = a
+      · obtain ⟨rfl, rfl⟩ := hk
+        rw [h1]
+        simpa [specStep, Hist.set] using r1
+      · rw [step_par_frame st now addr a n k' a' hk]
+        simp only [specStep, Hist.set, hk, if_false]
+        exact (hr k' a').advance hl
+    · rw [h2, r2]; simp [specStep]
 
 theorem run_refines : ∀ (ops : List Op) {st : State} {h : Hist} {last : Int},
     Rel st h last → Monotone last ops →
@@ -408,5 +490,158 @@ theorem run_refines : ∀ (ops : List Op) {st : State} {h : Hist} {last : Int},
     obtain ⟨r1, r2⟩ := step_refines hr op hl hat
     simp only [run, specRun]
     rw [ih r1 hm', r2]
+
+end SigModel.Throttle
+
+namespace SigModel.Throttle
+open SigModel.Generated.Throttle
+
+/-! ### interleavings of concurrent `addEntry` calls
+
+The regenerated critical sections of `addEntry` are one write-locked section that reads the entry list
+and writes the extended list.  Whatever the scheduler does with `n` such threads, the shared list ends
+up as the initial list followed by `n` new records. -/
+
+/-- The regenerated fact, as the interleaving theorems use it (proved from the source's current
+sections in `Props/C17.lean`, `C17_atomicity_facts`). -/
+def AddEntryAtomic : Prop := addEntryPaths = [[("W", ["read", "write"])]]
+
+theorem addEntryProgs_eq (hf : AddEntryAtomic) : addEntryProgs = [[[Acc.read, Acc.write]]] := by
+  unfold addEntryProgs; rw [hf]; decide
+
+/-- Invariant of every schedule of `n` threads that each record a failure at `now` with the one-section
+program: as many records were appended as threads have finished. -/
+def ConcInv (init : List Int) (now : Int) (n : Nat) (c : Conc) : Prop :=
+  c.thr.length = n ∧
+  (∀ t ∈ c.thr, t.entry = now ∧ (t.todo = [[Acc.read, Acc.write]] ∨ t.todo = [])) ∧
+  c.shared = init ++ List.replicate (n - c.pending) now
+
+theorem Conc.pending_le (c : Conc) : c.pending ≤ c.thr.length := List.countP_le_length
+
+theorem Conc.sched_none {c : Conc} {i : Nat} (hi : c.thr[i]? = none) : c.sched i = c := by
+  unfold Conc.sched; rw [hi]
+
+theorem Conc.sched_done {c : Conc} {i : Nat} {t : Thr} (hi : c.thr[i]? = some t) (ht : t.todo = []) :
+    c.sched i = c := by
+  unfold Conc.sched; rw [hi]; simp only [ht]
+
+theorem Conc.sched_section {c : Conc} {i : Nat} {t : Thr} {sec : List Acc} {rest : Prog}
+    (hi : c.thr[i]? = some t) (ht : t.todo = sec :: rest) :
+    c.sched i = ⟨(runSection t.entry c.shared t.loc sec).1,
+      c.thr.set i ⟨t.entry, rest, (runSection t.entry c.shared t.loc sec).2⟩⟩ := by
+  unfold Conc.sched; rw [hi]; simp only [ht]
+
+theorem ConcInv.sched {init : List Int} {now : Int} {n : Nat} {c : Conc} (h : ConcInv init now n c)
+    (i : Nat) : ConcInv init now n (c.sched i) := by
+  obtain ⟨hlen, hthr, hsh⟩ := h
+  cases hi : c.thr[i]? with
+  | none => rw [Conc.sched_none hi]; exact ⟨hlen, hthr, hsh⟩
+  | some t =>
+    have hilt : i < c.thr.length := (List.getElem?_eq_some_iff.mp hi).1
+    have hget : c.thr[i] = t := (List.getElem?_eq_some_iff.mp hi).2
+    have hmem : t ∈ c.thr := List.mem_of_getElem? hi
+    obtain ⟨hent, htodo⟩ := hthr t hmem
+    rcases htodo with htodo | htodo
+    · -- the thread runs its only section: read the list, write it back extended
+      rw [Conc.sched_section hi htodo]
+      have hrun : runSection t.entry c.shared t.loc [Acc.read, Acc.write] = (c.shared ++ [now], c.shared) := by
+        simp [runSection, runAcc, hent]
+      rw [hrun]
+      have hp1 : (!(c.thr[i]).todo.isEmpty) = true := by rw [hget, htodo]; rfl
+      have hpend : Conc.pending ⟨c.shared ++ [now], c.thr.set i ⟨t.entry, [], c.shared⟩⟩ = c.pending - 1 := by
+        unfold Conc.pending
+        simp only []
+        rw [List.countP_set hilt]
+        simp only [hp1]
+        simp
+      have hpos : 0 < c.pending := by
+        unfold Conc.pending
+        exact List.countP_pos_iff.mpr ⟨t, hmem, by rw [htodo]; rfl⟩
+      have hple := c.pending_le
+      refine ⟨by simpa using hlen, ?_, ?_⟩
+      · intro t' ht'
+        rcases List.mem_or_eq_of_mem_set ht' with h1 | h1
+        · exact hthr t' h1
+        · subst h1; exact ⟨hent, Or.inr rfl⟩
+      · rw [hpend]
+        simp only []
+        rw [hsh, List.append_assoc, ← List.replicate_succ']
+        congr 2
+        omega
+    · rw [Conc.sched_done hi htodo]
+      exact ⟨hlen, hthr, hsh⟩
+
+theorem ConcInv.run {init : List Int} {now : Int} {n : Nat} (schedule : List Nat) :
+    ∀ {c : Conc}, ConcInv init now n c → ConcInv init now n (c.run schedule) := by
+  induction schedule with
+  | nil => intro c h; exact h
+  | cons i is ih => intro c h; exact ih (h.sched i)
+
+theorem ConcInv.start (hf : AddEntryAtomic) (init : List Int) (now : Int) (progs : List Prog)
+    (hp : ∀ p ∈ progs, p ∈ addEntryProgs) : ConcInv init now progs.length (Conc.start init now progs) := by
+  rw [addEntryProgs_eq hf] at hp
+  have hall : ∀ p ∈ progs, p = [[Acc.read, Acc.write]] := fun p h => by simpa using hp p h
+  refine ⟨by simp [Conc.start], ?_, ?_⟩
+  · intro t ht
+    simp only [Conc.start, List.mem_map] at ht
+    obtain ⟨p, hpm, rfl⟩ := ht
+    exact ⟨rfl, Or.inl (hall p hpm)⟩
+  · have : (Conc.start init now progs).pending = progs.length := by
+      unfold Conc.pending Conc.start
+      simp only [List.countP_map]
+      rw [List.countP_eq_length.mpr]
+      intro p hpm
+      simp [hall p hpm]
+    rw [this]; simp [Conc.start]
+
+/-- A list whose first entry is not older than twelve hours is left alone by `filterEntries`. -/
+theorem filterEntries_young_head (now : Int) (l : List Int)
+    (h : ∀ t, l.head? = some t → now - t ≤ (maxBruteforceAge : Int)) : filterEntries now l = l := by
+  cases l with
+  | nil => rfl
+  | cons e es =>
+    have := h e rfl
+    unfold filterEntries
+    rw [ageCmp_gt]
+    simp; omega
+
+/-- What a passed check leaves behind, extended by failures recorded at the same time, is not pruned
+again. -/
+theorem filterEntries_after_check (now : Int) (es : List Int) (j : Nat) :
+    filterEntries now (filterEntries now es ++ List.replicate j now)
+      = filterEntries now es ++ List.replicate j now := by
+  apply filterEntries_young_head
+  obtain ⟨m, h1, _, _, h4⟩ := filterEntries_eq_drop now es
+  intro t ht
+  rw [h1] at ht
+  cases hd : es.drop m with
+  | nil =>
+    rw [hd] at ht
+    cases j with
+    | zero => simp at ht
+    | succ j =>
+      simp [List.replicate_succ] at ht
+      subst ht
+      have : (0 : Int) ≤ (maxBruteforceAge : Int) := by decide
+      omega
+  | cons e rest =>
+    rw [hd] at ht
+    simp at ht
+    subst ht
+    exact h4 e (by rw [hd]; rfl)
+
+/-- `n` sequential `throttle` calls with the same captured time. -/
+def throttleN (st : State) (now : Int) (k : Key) (a : Action) : Nat → State
+  | 0 => st
+  | n + 1 => throttleN (throttle st now k a).1 now k a n
+
+theorem throttleN_at (st : State) (now : Int) (k : Key) (a : Action) (n : Nat) :
+    throttleN st now k a n k a = st k a ++ List.replicate n now := by
+  induction n generalizing st with
+  | zero => simp [throttleN]
+  | succ n ih =>
+    simp only [throttleN]
+    rw [ih]
+    simp [throttle, State.set, List.replicate_succ]
 
 end SigModel.Throttle
